@@ -20,6 +20,17 @@ Writer/reader/engine AGREEMENT rules, decided from syntax trees (Python) and nar
   R8  strings: utf-8 on both sides, the length prefix counts encoded bytes
   R9  purity: the result of every _convert_*_encoding method depends only on (parameters of the type, the bytes / value converted):
       state that outlives the call is not read back unless it is a memo whose key contains every input of the remembered value
+  R10 freeze duty: a decoder that builds a list / set / dict returns a frozen value on every path on which _should_freeze may be true (tset /
+      tdict decode elements / keys with the flag set because they hash them); an early return - bulk fast path, empty-input shortcut - placed
+      before the freeze decision skips it.  Abstract execution of the decoder over (flag knowledge T/F/?, kind of each local H/U/?), helpers
+      summarised, decided before and independently of the wire programs
+Slot identity (R3): bit k must be computed from the component the payload writes k-th, i.e. the k-th DECLARED field.  Entries of a view of a
+Mapping value (value.values() / .items() / .keys()) are separate symbolic slots "k-th entry in the value's own order"; a header built from
+them is a violation (a struct value is any Mapping with the declared keys, in any order), whatever helper the packing went through.
+Bulk reads (R2): a composite reader operation of the stream class that unpacks `count` values of one struct code (summarised from its body:
+format <order><count><code>, unpack at the current offset, offset advanced by exactly the packed size) is one wire item; a decoder branch
+`if <element type has a struct code> and <no missing bit set>: bulk read` is compared, for every element class the guard admits (per-class
+table of the class-level code constant), with the general decode loop specialised to that class and to "every slot present".
 R3 (writer side) is decided semantically: the statements that compute and write the missing bytes - with helper methods that receive
 the stream inlined - are evaluated by an own interpreter over a symbolic missingness vector for n = 0..17 slots and compared with the
 layout; R5 decides reachability of the n-d array bulk branch from the definitions its guard consults and, when live, the memory
@@ -48,7 +59,9 @@ META = dict(
          'read from their _buildEncoder/_buildDecoder by hand); struct standard sizes; well-typed values (rank of an ndarray value == ndim of its type).',
     technique='static analysis: extraction of wire programs (regular signatures with loops/conditionals, helpers that receive the stream inlined) from ASTs on both '
               'directions and from the Scala type-to-encoding table, compared symbolically; the missing-bit code of writers and readers is evaluated by an own interpreter '
-              'over symbolic missingness bits (n = 0..17 slots); type guards of bulk paths are evaluated from the module\'s class tables; numpy memory order from an idiom table',
+              'over symbolic missingness bits (n = 0..17 slots; entries of a Mapping view of the value are separate symbols); type guards of bulk paths are evaluated from the '
+              'module\'s class tables; numpy memory order from an idiom table; freeze duty by abstract execution over (flag knowledge, container kind); bulk reads summarised '
+              'from the stream class and compared with the general decode loop per admitted element class',
     design_ref='DESIGN.md §3 C33',
 )
 
@@ -430,6 +443,9 @@ class Canon:
         self.fn = self.ex.fn  # helpers that receive the stream are inlined: analyse what actually runs
         self.where = f'{cls}.{fn.name}'
         self.fixed_arity = '__len__' in W.methods(m.cls(cls))
+        # the type object is a Mapping of its field types <=> its values are Mappings (struct): iterating such a value, or a view of it, follows the
+        # value's own order; a value of a Sequence-like fixed-arity type (tuple) is positional
+        self.value_is_mapping = any((pf.dotted(b) or '').split('.')[-1] in ('Mapping', 'MutableMapping') for b in m.cls(cls).bases)
         self.prog = self.ex.program()
         self.tt = _type_tables(m)
         self.value = self.ex.value
@@ -454,8 +470,21 @@ class Canon:
             return 'fields'
         if isinstance(e, (ast.ListComp, ast.GeneratorExp)) and len(e.generators) == 1 and not e.generators[0].ifs:
             return self.seq_tag(e.generators[0].iter)  # one item per element of the generator's domain
+        if isinstance(e, ast.Call) and pf.dotted(e.func) == 'zip' and len(e.args) >= 2 and not e.keywords and not any(isinstance(a, ast.Starred) for a in e.args):
+            tags = [self.seq_tag(a) for a in e.args]
+            if len(set(tags)) == 1:
+                return tags[0]   # parallel iteration over sequences with the same domain
+            own = [x for x in tags if x.startswith('own-order:')]
+            if own:
+                return own[0]    # pairs the k-th declared component with the k-th entry of the value's own order
+            self.fail(e, f'zip over sequences with different domains {tags}')
         if self.side == 'w':
             v = self.value
+            if self.fixed_arity and v:
+                if t in (f'{v}.items()', f'{v}.keys()', f'{v}.values()') or (t == v and self.value_is_mapping):
+                    return f'own-order:{v}'   # one entry per field, but in the iteration order of the VALUE, which the type does not determine
+                if t == v:
+                    return 'fields'           # positional value of a fixed-arity type: component k is slot k (well-typed: as many as the type has)
             if t in (v, f'{v}.items()', f'{v}.keys()', f'{v}.values()'):
                 return f'len:{v}'
             if t == f'{v}.shape':
@@ -568,7 +597,7 @@ class Canon:
                 self.facts.setdefault('packed', []).append(info)
             elif k == 'missing_w':
                 info = it[1]
-                msg, sources = W.check_missing_region(info)
+                msg, sources = W.check_missing_region(info, own_order_is_defect=self.fixed_arity)
                 self.facts.setdefault('missing_w', []).append((info, msg, sources))
                 sources = set(sources)
                 if 'mapping' in sources:   # a view of a Mapping value (value.values(), ...) has one entry per key of the value
@@ -687,8 +716,9 @@ class Canon:
         branch is compared, per admitted element class C, with the general branch specialised to C and to "everything present": equal
         for every C -> the condition does not select a layout (the general branch is the wire program); different -> recorded as a
         violation of reader/writer agreement (the writer has no such branch)."""
-        if self.side != 'r' or not any(x[0] == 'packed' for x in W.flatten_prims(then)):
+        if self.side != 'r':
             return None
+        has_packed = any(x[0] == 'packed' for x in W.flatten_prims(then))
         atoms = list(test.values) if isinstance(test, ast.BoolOp) and isinstance(test.op, ast.And) else [test]
         mb_taint = self.tainted_by({i_['bind'] for i_ in self.facts.get('missing_r', []) if i_.get('bind')}) if self.facts.get('missing_r') else set()
         recv: Optional[str] = None
@@ -724,10 +754,18 @@ class Canon:
                 admitted = g.admitted if admitted is None else admitted & g.admitted
                 continue
             unknown.append(pf.nsrc(x))
+        if not has_packed and not all_present:
+            return None   # neither a bulk read nor an "everything present" shortcut: not this idiom
         t_items, e_items = self.items(then), self.items(orelse)
-        if recv is None or admitted is None:
+        if has_packed and (recv is None or admitted is None):
             self.fail(test, f'bulk read under `{pf.nsrc(test)[:80]}`: the guard does not restrict the element type to classes with a known struct code')
         problems: List[str] = []
+        if recv is None or admitted is None:
+            # "no missing bit is set" shortcut without a restriction on the component types: compared with the general path once, delegated decodes left as they are
+            tc, ec = _specialise(self, t_items, None, None, False), _specialise(self, e_items, None, None, True)
+            if tc != ec:
+                problems.append(f'the shortcut reads {show_canon(tc)} where the general decode loop with every slot present - and the writer - have {show_canon(ec)}')
+            admitted = frozenset()
         for cn in sorted(admitted):
             try:
                 tc = _specialise(self, t_items, recv, cn, False)
@@ -798,9 +836,20 @@ class Canon:
                 continue
             its = pf.nsrc(it)
             inner = tgt
-            if isinstance(it, ast.Call) and pf.dotted(it.func) == 'enumerate' and isinstance(tgt, ast.Tuple) and len(tgt.elts) == 2:
+            if isinstance(it, ast.Call) and pf.dotted(it.func) == 'enumerate' and isinstance(tgt, ast.Tuple) and len(tgt.elts) == 2 and it.args:
                 inner = tgt.elts[1]
-                its = pf.nsrc(it.args[0])
+                it = it.args[0]
+                its = pf.nsrc(it)
+            if isinstance(it, ast.Call) and pf.dotted(it.func) == 'zip' and isinstance(inner, ast.Tuple) and len(inner.elts) == len(it.args):
+                # parallel iteration: the role of a target is decided by the sequence it is drawn from
+                for sub_t, sub_it in zip(inner.elts, it.args):
+                    sub_s = pf.nsrc(_resolve(self.fn, sub_it))
+                    if sub_s in ('self.items()', 'self._field_types.items()') and isinstance(sub_t, ast.Tuple) and len(sub_t.elts) == 2 \
+                            and isinstance(sub_t.elts[1], ast.Name) and sub_t.elts[1].id == name:
+                        return 'fieldtype'
+                    if sub_s in ('self.types', 'self._types', 'self._field_types.values()', 'self.values()') and isinstance(sub_t, ast.Name) and sub_t.id == name:
+                        return 'fieldtype'
+                continue
             if its in ('self.items()', 'self._field_types.items()') and isinstance(inner, ast.Tuple) and len(inner.elts) == 2 \
                     and isinstance(inner.elts[1], ast.Name) and inner.elts[1].id == name:
                 return 'fieldtype'
@@ -984,14 +1033,14 @@ def _reader_canon(cn_ctx: 'Canon', cn: str) -> List[tuple]:
     return _RCANON_CACHE[key]
 
 
-def _specialise(c: 'Canon', xs: Sequence[tuple], recv: str, cn: str, all_present: bool) -> Any:
+def _specialise(c: 'Canon', xs: Sequence[tuple], recv: Optional[str], cn: Optional[str], all_present: bool) -> Any:
     """Canonical items `xs` for element class `cn`: delegated decodes on `recv` replaced by the class's own reader program (primitives only), bulk
     reads by `count` repetitions of the primitive their struct code denotes, presence tests dropped when every slot is known to be present.
     Returns a message (str) when the bulk read itself is ill-formed for this class."""
     out: List[tuple] = []
     for it in xs:
         k = it[0]
-        if k == 'rec' and it[1] == recv:
+        if k == 'rec' and recv is not None and it[1] == recv:
             prog = _reader_canon(c, cn)
             if not all(p[0] == 'prim' for p in prog):
                 raise AnalysisError(f'the decoder of {cn} is not a sequence of primitives ({show_canon(prog)})')
@@ -1052,7 +1101,11 @@ def _first_diff(a: Sequence[tuple], b: Sequence[tuple]) -> str:
                 return 'inside IFPRESENT: ' + _first_diff(x[1], y[1])
             if x[0] == y[0] == 'cond' and x[1] == y[1]:
                 return f'inside IF[{x[1]}]: ' + (_first_diff(x[2], y[2]) if x[2] != y[2] else _first_diff(x[3], y[3]))
-            return f'item {i}: writer {show_canon([x])} vs reader {show_canon([y])}'
+            hint = ''
+            if any(isinstance(z, str) and z.startswith('own-order:') for z in x[1:2]):
+                hint = (' (the writer walks the value in ITS OWN iteration order - a view of a Mapping value - while component k on the wire is the k-th declared field: '
+                        'a struct value listing its keys in another order is written with its components exchanged)')
+            return f'item {i}: writer {show_canon([x])} vs reader {show_canon([y])}{hint}'
     return ''
 
 
@@ -1090,7 +1143,8 @@ def _python_side(ctx: Ctx, m: pf.Module, classes: Dict[str, ast.ClassDef]) -> Di
                         f'lay out - ' + '; '.join(fp['problems']), m.path, fp['test'].lineno)
             else:
                 ctx.ok('R2', fcons, {'guard': pf.nsrc(fp['test'])[:100], 'admitted_element_classes': fp['classes'],
-                                     'decided': 'bulk branch == general branch specialised to each admitted class with every slot present' if fp['classes'] else 'no class admitted: branch dead'})
+                                     'decided': 'bulk branch == general branch specialised to each admitted class with every slot present' if fp['classes']
+                                     else ('shortcut == general branch with every slot present' if fp['all_present'] else 'no class admitted: branch dead')})
         # presence test guards the component that is encoded, in the order of the missing bits
         for subj, present, test in cw.facts.get('present_w', []):
             recs = [it for it in W.flatten_prims(present) if it[0] == 'rec']
@@ -1099,28 +1153,55 @@ def _python_side(ctx: Ctx, m: pf.Module, classes: Dict[str, ast.ClassDef]) -> Di
                 ctx.check(arg is not None and pf.nsrc(arg) == pf.nsrc(subj), 'R2', f'{F}::{cname}.{TO}::presence test subject',
                           f'`{pf.nsrc(test)}` guards the encoding of `{pf.nsrc(arg) if arg is not None else "?"}`: the component tested for missingness is not the one written',
                           m.path, test.lineno)
-        # every delegated call forwards the stream and (reader) the freeze flag or True
-        for it in cr.facts.get('recs', []):
-            info = it[2]
-            flags = list(info['args']) + [v for k, v in info['kwargs'].items() if k == '_should_freeze']
-            if cname in ('tlocus',):
-                continue  # a locus has no nested containers
+    return canon
+
+
+def _delegated_decodes(m: pf.Module, cname: str, fn: pf.FuncDef) -> Optional[List[ast.Call]]:
+    """Calls `X._convert_from_encoding(<stream>, ...)` of a decoder (helpers that receive the stream inlined), in source order - found by a
+    direct scan, so that the freeze-flag rules do not depend on the wire program being extractable (a fast path with an unrecognised shape)."""
+    ps = W.param_names(fn)
+    if fn.args.vararg is not None or len(ps) < 2:
+        return None
+    stream = ps[1]
+    f2, _ = W.inline_stream_helpers(m, cname, fn, stream)
+    out = [n for n in ast.walk(f2) if isinstance(n, ast.Call) and isinstance(n.func, ast.Attribute) and n.func.attr == FROM and n.args
+           and isinstance(n.args[0], ast.Name) and n.args[0].id == stream]
+    return sorted(out, key=lambda n: (n.lineno, n.col_offset))
+
+
+def _flags_of(call: ast.Call) -> List[ast.AST]:
+    return list(call.args[1:]) + [k.value for k in call.keywords if k.arg == '_should_freeze']
+
+
+def _freeze_forwarding(ctx: Ctx, m: pf.Module, classes: Dict[str, ast.ClassDef]):
+    """R2 (freeze part): every delegated decode forwards the freeze flag (or True); tset elements / dict keys are decoded with True."""
+    decs: Dict[str, List[ast.Call]] = {}
+    for cname, c in classes.items():
+        ms = W.methods(c)
+        if TO not in ms or FROM not in ms:
+            continue
+        calls = _delegated_decodes(m, cname, ms[FROM])
+        if calls is None:
+            continue
+        decs[cname] = calls
+        if cname in ('tlocus',):
+            continue  # a locus has no nested containers
+        for call in calls:
+            flags = _flags_of(call)
             txt = pf.nsrc(flags[0]) if flags else None
-            ctx.check(txt in ('_should_freeze', 'True'), 'R2', f'{F}::{cname}.{FROM}::{pf.nsrc(it[1])} freeze flag',
-                      f'nested decode `{pf.nsrc(info["node"])[:90]}` does not forward the freeze flag (passes {txt}): a list/dict nested in a set element or dict key stays unhashable '
-                      f'and building the enclosing set/dict raises TypeError', m.path, info['node'].lineno)
+            ctx.check(txt in ('_should_freeze', 'True'), 'R2', f'{F}::{cname}.{FROM}::{pf.nsrc(call.func.value)} freeze flag',
+                      f'nested decode `{pf.nsrc(call)[:90]}` does not forward the freeze flag (passes {txt}): a list/dict nested in a set element or dict key stays unhashable '
+                      f'and building the enclosing set/dict raises TypeError', m.path, call.lineno)
     # hashed positions are decoded frozen
     for cname, recv in (('tset', 'self._array_repr'), ('_freeze_this_type', 'self.t')):
-        ctx.need(cname in canon, f'anchor vanished: {cname} encoders')
-        recs = [it for it in canon[cname][2].facts.get('recs', []) if pf.nsrc(it[1]) == recv]
+        ctx.need(cname in decs, f'anchor vanished: {cname} encoders')
+        recs = [c_ for c_ in decs[cname] if pf.nsrc(c_.func.value) == recv]
         ctx.need(len(recs) == 1, f'{cname}.{FROM}: expected one delegated decode on {recv}')
-        info = recs[0][2]
-        flags = list(info['args']) + [v for k, v in info['kwargs'].items() if k == '_should_freeze']
+        flags = _flags_of(recs[0])
         ok = len(flags) == 1 and isinstance(flags[0], ast.Constant) and flags[0].value is True
         ctx.check(ok, 'R2', f'{F}::{cname}.{FROM}::decoded frozen',
                   f'{"set elements" if cname == "tset" else "dict keys"} are decoded with _should_freeze={pf.nsrc(flags[0]) if flags else "default False"}: an array-typed one comes back '
-                  f'as an unhashable list and set()/dict insertion raises TypeError', m.path, info['node'].lineno)
-    return canon
+                  f'as an unhashable list and set()/dict insertion raises TypeError', m.path, recs[0].lineno)
 
 
 def _index_of_bit(ctx: Ctx, e: ast.AST, i: str, j: str) -> bool:
@@ -2300,7 +2381,9 @@ def run(ctx: Ctx) -> None:
                    '(decoded bytes and type parameters such as self.reference_genome)', 30)
     ctx.rule('R10', 'freeze duty: a decoder that builds a list / set / dict returns a frozen (hashable) value on every path on which _should_freeze may be true '
                     '(tset / tdict decode elements and keys with the flag set because they hash them)', 3)
-    ctx.assume('values are well-typed (e.g. the rank of an ndarray value equals the ndim of its type; struct values have every field)')
+    ctx.assume('values are well-typed (e.g. the rank of an ndarray value equals the ndim of its type; struct values have every field; a tuple / struct value has exactly as many '
+               'components as its type)')
+    ctx.assume('a struct value is any Mapping with the declared keys (tstruct._typecheck_one_level tests key membership only): its own iteration order is not the declared field order')
     ctx.assume('frozen EType layouts: EArray/EUnsortedSet/EDictAsUnsortedArrayOfPairs = int32 n, ceil(n/8) missing bytes iff the element type is not required, present elements; '
                'EBaseStruct = one missing bit per non-required field then present fields; EBinary = int32 n + n bytes; ENDArrayColumnMajor = int64 per dimension + all elements')
     ctx.assume('the host is little-endian (struct "=" is native byte order with standard sizes)')
@@ -2311,6 +2394,7 @@ def run(ctx: Ctx) -> None:
     ctx.unit('classes', len(classes))
     _r9(ctx, m, classes)   # first: an established history dependence is reported even if a later, shape-dependent rule declines
     _r10(ctx, m, classes)  # likewise: a skipped freeze duty is not about bytes and is decided without the wire programs
+    _freeze_forwarding(ctx, m, classes)
     _r1(ctx)
     canon = _python_side(ctx, m, classes)
     r2_failed = {i['construct'].split('::')[1] for i in ctx.instances if i['rule'] == 'R2' and not i['holds']}
